@@ -96,13 +96,16 @@ func TestVerifC41Stress(t *testing.T) {
 		h.logConfig.ReadAheadSegments = 2
 		h.logConfig.CacheEnabled = true
 		h.cache = cache.NewSegmentCache(1200)
-		var wg sync.WaitGroup
+		var wg, pwg sync.WaitGroup
+		var producersDone atomic.Bool
 		var produced, fetchedBytes, fetchErrs, hwSeen, tailReads atomic.Int64
 		for p := 0; p < 8; p++ {
 			prng := rand.New(rand.NewSource(rng.Int63()))
 			wg.Add(1)
+			pwg.Add(1)
 			go func(p int) {
 				defer wg.Done()
+				defer pwg.Done()
 				for b := 0; b < 12; b++ {
 					acks := []int16{-1, -1, 1, 0}[prng.Intn(4)]
 					res := plogExec(h, inst, p, b, plogReq{Kind: "produce", Topic: "t", Partition: int32(prng.Intn(2)), Acks: acks, Batch: mkBatch(prng, fmt.Sprintf("r%d/p%d/%d", ci, p, b), 1+prng.Intn(3), prng.Intn(60))})
@@ -112,6 +115,7 @@ func TestVerifC41Stress(t *testing.T) {
 				}
 			}(p)
 		}
+		go func() { pwg.Wait(); producersDone.Store(true) }()
 		for f := 0; f < 6; f++ {
 			frng := rand.New(rand.NewSource(rng.Int63()))
 			wg.Add(1)
@@ -140,7 +144,9 @@ func TestVerifC41Stress(t *testing.T) {
 				wg.Add(1)
 				go func(f int) {
 					defer wg.Done()
-					for i := 0; i < 120; i++ {
+					// follow the log end for as long as the producers run (how many rounds that is depends on the
+					// machine, so the loop is bounded by the producers, not by a count), at least 120 rounds
+					for i := 0; i < 20000 && (i < 120 || !producersDone.Load()); i++ {
 						part := int32(i % 2)
 						lo := plogExec(h, inst, 400+f, i, plogReq{Kind: "listoffsets", Topic: "t", Partition: part, Offset: -1})
 						plog, err := h.getPartitionLog(context.Background(), "t", part)
